@@ -153,6 +153,9 @@ def main():
         ck.fail("C16-market", "Blotter.market_exposure differs from the worst case over all sets of winners",
                 {"call": "Blotter.market_exposure", "orders": cases[ci]["orders"], "extra": cases[ci]["extra"], "query": cases[ci]["queries"][qi], "impl": res[ci][qi],
                  "failed": "property" if i in mpbad else "model-mismatch"})
+    # the BETDAQ path of a live Flumine (outside the Coq live model): placements whose answer the order poll overtakes, matches, polls, price changes, cancels
+    import betdaqcheck
+    betdaqcheck.run_family(ck, rng, 60 if thorough else 20, "betdaq_exposures_against_the_exchange", ("C16",))
     return ck.finish("random blotters of real orders (0-4 orders on 1-4 selections, both sides, LIMIT/LINE_RANGE/LOC/MOC, every status incl. None, any matched/remaining split, orders of another strategy mixed in) x queries with/without exclusion and prospective order (incl. exclusion==new) x active runners 1-7, winners 0-3; model evaluated with both tie-breaks (equal => exact equality demanded, else only the property); the property checker (brute force over fill subsets / winner sets) is evaluated on the implementation's figures for every case")
 
 
